@@ -255,7 +255,7 @@ def run(ctx):
                         "error messages are compared only where the error is the oracle's own; for errors made up by the typed parsers kind and offset are compared"]
     tab = table(ctx)
     seen = {}
-    limit = 1200 if ctx.quick else 20000
+    limit = 1200 if ctx.quick else 6000
     valid = []
     for name in SUBLANGS:
         cases = sr.generate(ctx, name)
